@@ -54,8 +54,14 @@ for root in sys.argv[1:]:
         }
         json.dump(out, open(os.path.join(dst, "meta.json"), "w"), indent=1, ensure_ascii=False)
         rows.append(out | {"name": name})
+# the index lists every seed kept so far, not only the roots given now (earlier roots are removed once collected)
+collected = len(rows)
+rows = []
+for d in sorted(glob.glob(os.path.join(OUT, "C??-*"))):
+    try: rows.append(json.load(open(os.path.join(d, "meta.json"))) | {"name": os.path.basename(d)})
+    except Exception: pass
 with open(os.path.join(OUT, "INDEX.md"), "w") as f:
     f.write("# Seeded property-breaking changes\n\nEach directory: `patch.diff` (applies to /repo HEAD with `git -C /repo apply`), `demo/` (the author's demonstration), `meta.json`.\nNone of these is ever committed to /repo. Evaluate with `tools/eval_seeds.py seeded/<id>`.\n\n| seed | breaks | needs | caught by (quick tier) |\n|---|---|---|---|\n")
     for r in rows:
         f.write("| %s | %s | %s | %s |\n" % (r["name"], (r["summary"] or "").replace("|", "/").replace("\n", " ")[:220], (r["needs_to_manifest"] or "").replace("|", "/").replace("\n", " ")[:200], ", ".join(r["caught_by"] or []) if r["caught_by"] is not None else "not evaluated yet"))
-print(len(rows), "seeds collected")
+print(collected, "seeds collected now,", len(rows), "in the index")
